@@ -149,7 +149,7 @@ func (a *Activation) havocCall(st *State, name string, args []Val, resT types.Ty
 	g := a.g
 	if heapToo {
 		g.note("havoc call (no contract, results and all heaps unconstrained): " + name)
-		g.havocAllHeaps(st)
+		g.havocAllHeapsAtCall(st)
 		for k := range st.ghosts {
 			_ = k
 		}
@@ -619,7 +619,7 @@ func fieldCallKey(v ssa.Value) (string, bool) {
 	if !ok {
 		return "", false
 	}
-	nt, ok := pt.Elem().(*types.Named)
+	nt, ok := types.Unalias(pt.Elem()).(*types.Named)
 	if !ok || nt.Obj().Pkg() == nil {
 		return "", false
 	}
